@@ -19,8 +19,12 @@ def fingerprints():
 
 LEVELS = ["x", "y", "z", "w"]
 
-def gen_actions(rng, kind, n):
+def gen_actions(rng, kind, n, LEVELS=LEVELS):
     from coba.primitives import Categorical
+    if kind == "mixed":      # a heterogeneous set: a sparse mapping (the empty no-op first, or later) next to dense vectors or scalars
+        rest = rng.choice([[tuple(v) for v in rng.sample([(1, 0, 2), (0, 3, 1), (2, 2, 0), (5, 0, 0)], n - 1)], rng.sample(range(2, 9), n - 1)])
+        sp = rng.choice([{}, {}, {"q": 1}])
+        return [sp] + rest if rng.random() < 0.7 else rest + [sp]
     if kind == "int": return rng.sample(range(1, 9), n)
     if kind == "float": return [x + 0.5 for x in rng.sample(range(1, 9), n)]
     if kind == "str": return rng.sample(["p", "q", "r", "s", "t"], n)
@@ -31,6 +35,14 @@ def gen_actions(rng, kind, n):
     if kind == "nestcat": return [[[Categorical(l, LEVELS), i], i + 1] for i, l in enumerate(rng.sample(LEVELS, n))]      # a categorical inside a nested list of a dense action
     if kind == "sparsecat": return [{"f": [Categorical(l, LEVELS), 1], "g": i + 1} for i, l in enumerate(rng.sample(LEVELS, n))]
     return [{"k%d" % i: 1, "z": i + 1} for i in rng.sample(range(1, 9), n)]
+
+def _with_levels(x, lv):
+    from coba.primitives import Categorical
+    if isinstance(x, Categorical): return Categorical(str(x), lv)
+    if isinstance(x, list): return [_with_levels(v, lv) for v in x]
+    if isinstance(x, tuple): return tuple(_with_levels(v, lv) for v in x)
+    if isinstance(x, dict): return {k: _with_levels(v, lv) for k, v in x.items()}
+    return x
 
 def gen_reward(rng, actions, form):
     from coba.primitives import BinaryReward, DiscreteReward, L1Reward
@@ -55,8 +67,12 @@ def gen_interaction(rng, kind, n_inter):
     CATK = ("cat", "densecat", "nestcat", "sparsecat")
     n = rng.choice([2, 3, 3, 4]) if kind not in CATK else rng.choice([2, 3, 4])
     base = gen_actions(rng, kind, n)
-    for _ in range(n_inter):
+    relevel = kind in CATK and same_actions and rng.random() < 0.5      # later interactions list the same levels in another order
+    for t in range(n_inter):
         acts = list(base) if same_actions else gen_actions(rng, kind, rng.choice([2, 3, 4]))
+        if relevel and t >= rng.choice([1, 2]):
+            lv = list(LEVELS); rng.shuffle(lv)
+            acts = _with_levels(base, lv)      # the same level names, action by action, as the base set
         r, rv = gen_reward(rng, acts, form)
         it = {"context": rng.choice([None, 1, (1, 2), {"c": 1}]), "actions": acts, "rewards": r}
         exp = {"rewards": rv}
@@ -76,6 +92,7 @@ def gen_chain(rng, kind):
         if cur in ("nestcat", "sparsecat"): opts += ["repr-nest"] * 3
         if cur in ("nested", "dense", "densecat"): opts.append("flatten")
         if cur in ("int", "float", "str", "dense"): opts.append("sparsify")
+        if cur == "mixed": opts += ["sparsify"] * 3
         if cur in ("sparse",): opts.append("densify")
         if cur in ("int", "float"): opts.append("noise")
         opts += ["finalize", "repr-none"]
@@ -120,8 +137,8 @@ def run(ctx):
     rng = ctx.rng
     reqs = []
     for _ in range(ctx.n(1500, 20000)):
-        kind = rng.choice(["int", "float", "str", "cat", "cat", "dense", "densecat", "nested", "sparse", "nestcat", "sparsecat"])
-        pairs, d = gen_interaction(rng, kind, rng.choice([1, 2, 3]))
+        kind = rng.choice(["int", "float", "str", "cat", "cat", "dense", "densecat", "nested", "sparse", "nestcat", "sparsecat", "mixed"])
+        pairs, d = gen_interaction(rng, kind, rng.choice([1, 2, 3, 4]))
         chain, cdesc = gen_chain(rng, kind)
         case = dict(d, chain=cdesc, interactions=[repr({k: (v if not callable(v) or hasattr(v, "__getstate__") else "<callable>") for k, v in it.items()})[:300] for it, _ in pairs])
         ctx.count("chain:" + "+".join(c.split("(")[0] for c in cdesc), repr(case), len(pairs[0][0]["actions"]) >= 2)
